@@ -142,10 +142,13 @@ class Program(object):
             if left is None or right is None:
                 return None
             try:
-                return NumericValue(value.calculate(
+                result = value.calculate(
                     -left.int if left.is_negative() else left.int,
                     -right.int if right.is_negative() else right.int,
-                ))
+                )
+                if result < -32768:
+                    raise ValueTypeError("integer value cannot be below -32768")
+                return NumericValue(result)
             except (ValueError, ValueTypeError) as error:
                 raise TranslationError(str(error), statement)
         return None
